@@ -1,12 +1,16 @@
 package props
 
 import (
+	"encoding/json"
 	"fmt"
+	"os"
+	"strconv"
 	"testing"
 
 	"github.com/bolkedebruin/rdpgw/cmd/rdpgw/protocol"
 	"pgregory.net/rapid"
 
+	"verif/harness/lab/ev"
 	"verif/harness/lab/sess"
 	"verif/harness/lab/tsgu"
 )
@@ -124,4 +128,80 @@ func TestC17_INP(t *testing.T) {
 				return checkC17(c, r)
 			})
 		})
+}
+
+// ---- BIN: the four server settings through the configuration file ----
+
+type c17Bin struct {
+	Cookie bool      `json:"cookie_auth"`
+	SC     bool      `json:"smartcard_auth"`
+	Batch  []c17Case `json:"batch"`
+}
+
+func TestC17_BIN(t *testing.T) {
+	runProp(t, "C17_BIN", func(t *rapid.T) c17Bin {
+		c := c17Bin{Cookie: rapid.Bool().Draw(t, "cookie"), SC: rapid.Bool().Draw(t, "sc")}
+		n := rapid.IntRange(1, 20).Draw(t, "batch")
+		for i := 0; i < n; i++ {
+			s := genC17(t)
+			s.Cookie, s.SC = c.Cookie, c.SC
+			c.Batch = append(c.Batch, s)
+		}
+		return c
+	}, func(c c17Bin) (bool, []string) {
+		return true, []string{fmt.Sprintf("server=%d", c17Server(c17Case{Cookie: c.Cookie, SC: c.SC}))}
+	}, func(c c17Bin) *Violation {
+		o := resolveHosts(gwOpts{TokenAuth: c.Cookie, SmartCard: c.SC, HostSelection: "roundrobin", Hosts: []string{"$A"}, VerifyIP: true})
+		in, tgt, err := binFor(o, W().User)
+		if err != nil {
+			return viol("bin/start", "%v", err)
+		}
+		for i, s := range c.Batch {
+			units := c17Units(s)
+			if c.Cookie {
+				// the real wiring checks the cookie: present a valid one so that "the next step is answered"
+				ck, _, _, _ := W().mintCookie("valid:A", "127.0.0.1")
+				units[1] = tsgu.TunnelCreate(ck, true)
+			}
+			if v := checkC17(s, sess.Run(s.Kind, tgt, units)); v != nil {
+				v.Msg = fmt.Sprintf("sub-case %d %+v: %s", i, s, v.Msg)
+				return v
+			}
+		}
+		return binHealth(in)
+	})
+}
+
+// ---- exhaustive enumeration of the 4 x 65536 table (thorough tier; sharded by capability value) ----
+
+func TestC17_EXH(t *testing.T) {
+	if os.Getenv("VERIF_REPLAY") != "" {
+		t.Skip("no replay for the enumeration; failures are saved as C17_INP cases")
+	}
+	shard, _ := strconv.Atoi(os.Getenv("VERIF_SHARD"))
+	n, _ := strconv.Atoi(os.Getenv("VERIF_NSHARDS"))
+	if n <= 0 {
+		n = 1
+	}
+	seed, _ := strconv.Atoi(os.Getenv("VERIF_SEEDVAL"))
+	for caps := shard; caps < 65536; caps += n {
+		for s := 0; s < 4; s++ {
+			h := uint32(caps*2654435761) ^ uint32(seed*40503) ^ uint32(s*977)
+			c := c17Case{Cookie: s&2 != 0, SC: s&1 != 0, Caps: uint16(caps), Major: byte(h), Minor: byte(h >> 8), Version: uint16(h >> 16), Kind: "ws"}
+			if h%7 == 0 {
+				c.Kind = "legacy"
+			}
+			cj, _ := json.Marshal(c)
+			ev.Record("C17_EXH", cj, true, fmt.Sprintf("server=%d", s))
+			gw := &protocol.Gateway{TokenAuth: c.Cookie, SmartCardAuth: c.SC}
+			v := withGateway(gw, func() *Violation { return checkC17(c, sess.Run(c.Kind, inpTarget(), c17Units(c))) })
+			if v != nil {
+				rf, _ := json.MarshalIndent(replayFile{Unit: "C17_INP", Violation: v, Case: cj}, "", " ")
+				p := replayPath("C17_EXH")
+				os.WriteFile(p, rf, 0o644)
+				fmt.Printf("FAILCASE unit=C17_EXH replay=%s sig=%s\n", p, v.Sig)
+				t.Fatalf("[%s] %s", v.Sig, v.Msg)
+			}
+		}
+	}
 }
